@@ -1478,6 +1478,8 @@ class Pregex():
                 return _Type.Assertion, True
             elif _re.fullmatch(r"\^|\$|\\A|\\Z", pattern) is not None:
                 return _Type.Assertion, False
+            elif pattern == "|":
+                return _Type.Alternation, True
             else:
                 return _Type.Token, True
 
